@@ -276,8 +276,23 @@ impl fmt::Display for Problem {
             writeln!(f, "tff(type_function_constant_{i}, type, {name}: {sort}).")?
         }
 
+        // Order the symbolic constants by the names they have in the input: a constant that was
+        // renamed to `<name>__s` (because `<name>` is also a propositional predicate) still
+        // denotes `<name>`, and `a__s` does not sort like `a` (e.g. `a0` < `a__s` but `a` < `a0`).
+        let propositional_predicates: IndexSet<String> = self
+            .predicates()
+            .into_iter()
+            .filter(|p| p.arity == 0)
+            .map(|p| p.symbol)
+            .collect();
+        let original_name = |s: &String| -> String {
+            match s.strip_suffix("__s") {
+                Some(base) if propositional_predicates.contains(base) => base.to_string(),
+                _ => s.clone(),
+            }
+        };
         let mut symbols = Vec::from_iter(self.symbols());
-        symbols.sort_unstable();
+        symbols.sort_unstable_by_key(original_name);
         for (i, s) in symbols.windows(2).enumerate() {
             writeln!(
                 f,
